@@ -62,8 +62,8 @@ func (d *DatasourceExecuting) Run(ctx ExecutionContext, produce ProduceFn, metaS
 		}
 		line++
 	}
-	if sc.Err() != nil {
-		return err
+	if err := sc.Err(); err != nil {
+		return fmt.Errorf("couldn't scan lines: %w", err)
 	}
 	return nil
 }
